@@ -405,6 +405,18 @@ def check(prog, rep, tier):
         K = prog.cls(ctx)
         f = K.find_method(nm) or K.find_getter(nm)
         rv = {canon(p.exit[1]) for p in paths(prog, ctx, f) if p.exit[0] == "return"}
+        from ..common import expand_derived, maintained_derived
+        derived, stale = maintained_derived(prog, ctx)
+        used_stale = [d for d in stale if any(n[0] == "f" and n[1] == SELF and n[2] == d for v in rv for n in walk(v))]
+        if rv != {canon(want)} and used_stale:
+            d = used_stale[0]
+            sf, sev, ins = stale[d]
+            rep.bad("C14.load-factor", f"{ctx}.{nm}", f"reads remembered {d}",
+                    f"the load factor reads {d}, which remembers {nshow(derived[d])}; {sf.cls.name if sf.cls else ''}.{sf.src_name} assigns {sev.name} and does not refresh it afterwards, "
+                    "so the load factor is computed for a table size the filter no longer has", sev.where())
+            continue
+        if rv != {canon(want)}:
+            rv = {canon(expand_derived(prog, ctx, v)) for v in rv}  # a remembered product that every writer of its factors refreshes
         if rv == {canon(want)}:
             rep.ok("C14.load-factor", f"{ctx}.{nm}")
         else:
